@@ -58,6 +58,9 @@ type VC struct {
 	inputs   []namedTerm
 	noBind   int
 	defs     map[string]string // bound name -> defining term
+	// normal exit of the verified function (vacuity guard)
+	exitGuard  string
+	exitPrefix int
 }
 
 func newVC(fn string) *VC {
